@@ -42,7 +42,7 @@ RULE = ("seeded object graphs (inversion -> mappers -> grids -> mask, fit -> dat
         "prefixes 'read everything then derive' and 'derive then read'); a case = one history or one (structure class, derivation) "
         "pair or one entry-point sweep; distinct by hash of (graph seed, history) ; non-trivial = history with >= 2 distinct "
         "quantities read (or a derivation applied after reads)")
-BOUNDS = {"quick": "6 graphs x (baseline of every public quantity + 12 histories of 20 steps) + 9 structure classes x 8 derivations x 2 + 6 sweeps + 12 determinism cases",
+BOUNDS = {"quick": "6 graphs x (baseline of every public quantity + 12 histories of 20 steps) + 9 structure classes x 8 derivations x 2 + dataset derivations (slim / native+covariance) + 16 entry-point sweeps (every extra preload slot in every second one) + 12 determinism cases (boundary seeds 0, 1, 2^32-1)",
           "thorough": "160 graphs x 60 histories of 60 steps + derivations x 32 seeds + 320 sweeps + 640 determinism cases"}
 EXHAUSTIVE = {"quick": False, "thorough": False}
 ASSUMPTIONS = ["quantities whose value is a non-array object are compared by type only",
